@@ -111,3 +111,28 @@ Example C01_closing_nonvacuous :
   Forall (benignC (s "svc") (s "prod")) closing_ops /\ nz_storeb (w_store (h_world h)) = true /\
   fst (fst (hstep h (HDecrypt 1 0 [] []))) = ODec (Some 5%nat) /\ fst (fst (hstep h (HDecrypt 0 0 [] []))) = ODec (Some 5%nat).
 Proof. exact closing_nonvacuous. Qed.
+
+(* ---- the Encrypt half: it cannot fail when no fault is injected.  After ANY history of new factories (any cache policy and capacity),
+   sessions, encrypts and decrypts under any fault plans, clock changes and revocations (no closes, no session cache), an unfaulted
+   Encrypt in any live session returns a record - whatever the caches hold, whether the keys are found, stale, expired, revoked,
+   must be created, or the insert is refused and the duplicate fallback runs (Envelope/Total.v: a no-failure chain through
+   key_cache.go and envelope.go on top of the coherence and liveness invariants).  With C01_roundtrip_on_live_cached_sessions that
+   record then decrypts to the payload.  Side conditions: no stored row has stamp 0, the operation's own key stamp is not 0. *)
+From Asherah Require Import Envelope.Total.
+
+Theorem C01_unfaulted_encrypt_succeeds : forall svc prod t0 ops s x fa payload,
+  Forall (benignL svc prod) ops ->
+  let h := snd (hrun (hinit t0) ops) in
+  let w := h_world h in
+  nth_error (w_sessions w) s = Some x -> nth_error (w_factories w) (ss_factory x) = Some fa ->
+  nz_store (w_store w) -> new_key_timestamp (w_now w) (p_precision (fa_policy fa)) <> 0 ->
+  exists pm c, fst (fst (hstep h (HEncrypt s payload []))) = OEnc pm c.
+Proof. exact unfaulted_encrypt_succeeds. Qed.
+Print Assumptions C01_unfaulted_encrypt_succeeds.
+
+Example C01_unfaulted_encrypt_nonvacuous :
+  let h := snd (hrun (hinit Rotation.t0) Rotation.witness_expiry) in
+  Forall (benignL (s "svc") (s "prod")) Rotation.witness_expiry /\ nz_storeb (w_store (h_world h)) = true /\
+  (new_key_timestamp (w_now (h_world h)) (p_precision Rotation.pol100) =? 0) = false /\
+  match fst (fst (hstep h (HEncrypt 3 9 []))) with OEnc _ _ => True | _ => False end.
+Proof. exact unfaulted_encrypt_nonvacuous. Qed.
